@@ -6,7 +6,11 @@ from .. import oracles as orc
 THEOREMS = ["C03.xfs_srq", "C03.xfs_drq", "C03.xfs_wo", "C03.nonfloat_never_quantized", "C03.dtype_of_bits",
             "C03.quantizeOnly_types", "C03.insertQuant_tensors", "C03.insertQuant_op", "C03.insertQuant_consumers",
             "C03.insertDequant_tensors", "C03.insertDequant_op", "C03.insertDequant_consumers",
-            "C03.addQuant_wired", "C03.addDequant_wired", "C03.quantTensor_typed"]
+            "C03.addQuant_wired", "C03.addDequant_wired", "C03.quantTensor_typed",
+            # C03d: END TO END on quantizePure under NF, per resolved mode of every original operator
+            "C03.noquant_op_untouched", "C03.noquant_op_constants", "C03.inserted_ops_typed", "C03.srq_op_typed", "C03.srq_bias_typed",
+            "C03.drq_op_typed", "C03.wo_op_typed", "C03.f16_op_typed", "C03.E2E.noquant_instance", "C03.E2E.srq_instance",
+            "C03.E2E.bias_instance", "C03.E2E.drq_instance", "C03.E2E.wo_instance", "C03.E2E.f16_instance"]
 
 
 def run(ctx):
@@ -14,7 +18,21 @@ def run(ctx):
                 "modes) through the real pipeline; materialisation and the whole pipeline are compared bit-exactly with the Lean model; the "
                 "output's per-operand dtypes are checked against the mode the real RecipeManager resolves for each op (independent oracle); "
                 "distinct = distinct (model, recipe) pairs")
-    common.proof_side(ctx, THEOREMS, modules=["QProps.C03", "QProps.C03b", "QProps.C03c"])
+    ctx.explanation = ("END TO END on the model (QProps/C03d), for every model in normal form, recipe state, regex semantics and statistics on which "
+                       "quantizePure succeeds, and every ORIGINAL operator (found in the output by its tag, same opcode, results and operand "
+                       "count, operands standing for the original ones): resolved to no-quantize / not a supported operator => every result "
+                       "keeps its record, every operand is the original tensor with its record and (constants) an unchanged buffer, or a new "
+                       "float32 tensor produced by exactly one inserted DEQUANTIZE of it (noquant_op_untouched, noquant_op_constants); static "
+                       "range => float results and runtime operands of regular slots are integer tensors of the activation width carrying "
+                       "parameters (read directly or through one inserted QUANTIZE), constants are integer constants of the weight/activation "
+                       "width over packed data, the bias is 32 bit (64 for 16-bit activations), non-float operands untouched (srq_op_typed, "
+                       "srq_bias_typed); dynamic range / weight only / float16 cast => activations, bias and results untouched, the weight an "
+                       "integer resp. float16 constant read directly resp. through one inserted DEQUANTIZE (drq_op_typed, wo_op_typed, "
+                       "f16_op_typed); every operator without a tag is a QUANTIZE (float or integer in, integer with parameters out) or a "
+                       "DEQUANTIZE (integer/float16 in, float32 without parameters out) of an original tensor (inserted_ops_typed). Closed "
+                       "instances run the whole pipeline in the kernel. Byte-identity of untouched constants is 'same abstract buffer content' in "
+                       "the model; the bytes themselves are compared by execution.")
+    common.proof_side(ctx, THEOREMS, modules=["QProps.C03", "QProps.C03b", "QProps.C03c", "QProps.C03d"])
     drv = common.Driver()
 
     def per_case(case, res):
